@@ -121,10 +121,10 @@ static void rec_parse(const unsigned char *in, size_t n) {
     if (t) t->free(t);
     free(qs);
 }
-static const unsigned char ALPHA[3][8] = {
-    {'%', '+', 'a', 'F', 'g', '4', '=', '&'},     /* URL / query */
-    {'0', 'a', 'F', 'g', ' ', '9', 'x', 'f'},     /* hex */
-    {'A', '=', '/', '+', '-', 'z', ' ', '9'},     /* base64 */
+static const unsigned char ALPHA[3][9] = {      /* each with one byte >= 0x80 (lookup tables indexed by a signed char) */
+    {'%', '+', 'a', 'F', 'g', '4', '=', '&', 0xFF},     /* URL / query */
+    {'0', 'a', 'F', 'g', ' ', '9', 'x', 'f', 0x80},     /* hex */
+    {'A', '=', '/', '+', '-', 'z', ' ', '9', 0xE9},     /* base64 */
 };
 
 int main(int argc, char **argv) {
@@ -163,9 +163,9 @@ int main(int argc, char **argv) {
         vh_open(argv[4]);
         unsigned char x[8];
         for (int len = 0; len <= maxlen; len++) {
-            long total = 1; for (int i = 0; i < len; i++) total *= 8;
+            long total = 1; for (int i = 0; i < len; i++) total *= 9;
             for (long v = 0; v < total; v++) {
-                long w = v; for (int i = 0; i < len; i++) { x[i] = ALPHA[aid][w & 7]; w >>= 3; }
+                long w = v; for (int i = 0; i < len; i++) { x[i] = ALPHA[aid][w % 9]; w /= 9; }
                 if (aid == 0) { rec_dec("urldec", x, (size_t) len); rec_parse(x, (size_t) len); }
                 else if (aid == 1) rec_dec("hexdec", x, (size_t) len);
                 else rec_dec("b64dec", x, (size_t) len);
